@@ -198,6 +198,26 @@ func InjectAt(r *rng.R, p *Program, idx int) (Injection, bool) {
 			ds[0].Fields[0].Label, ds[1].Fields[0].Label = "shared-label", "shared-label"
 			return "the same go.label in two structs", true
 		}},
+		{"labels-that-need-quoting", "A", func() (string, bool) {
+			// finding D91 (repaired): labels were pasted into Go string literals as they are. An
+			// item labelled with the escape sequence that spells another item's name is a
+			// different label; a quote in a label is just a character.
+			hit := ""
+			for _, f := range p.Files {
+				for _, d := range f.Defs {
+					if d.Kind == Enum && len(d.Items) >= 2 && d.Items[0].Label == "" && d.Items[1].Label == "" && hit == "" {
+						n := d.Items[0].Name
+						d.Items[1].Label = fmt.Sprintf("\\x%02x%s", n[0], n[1:])
+						hit = "enum " + d.Name + ": item labelled " + d.Items[1].Label + " beside item " + n
+					}
+				}
+			}
+			if ds := in.structs(1); len(ds) > 0 {
+				ds[0].Fields[0].Label = `quo"te`
+				hit += "; field label with a quote in " + ds[0].Name
+			}
+			return hit, hit != ""
+		}},
 		{"same-go-case-types-renamed", "A", func() (string, bool) {
 			// two types whose Thrift names are equal after Go-casing, told apart by
 			// go.name, both used as elements of containers of the same shape
@@ -296,6 +316,19 @@ func InjectAt(r *rng.R, p *Program, idx int) (Injection, bool) {
 			}
 			d.Fields[0].Name, d.Fields[0].GoName = n, ""
 			return fmt.Sprintf("field %s in %s %s", n, d.Kind, d.Name), true
+		}},
+		{"go-name-like-generated-method", "B", func() (string, bool) {
+			// the same names, given through the go.name annotation instead of the Thrift name
+			d := in.pickDef(in.structs(1))
+			if d == nil {
+				return "", false
+			}
+			n := []string{"ToWire", "FromWire", "Encode", "Decode", "String", "Equals", "Error", "MarshalLogObject", "MethodName", "EnvelopeType", "ErrorName"}[r.Intn(11)]
+			if n == "ErrorName" && d.Kind == Exception {
+				return "", false // finding D13's probe
+			}
+			d.Fields[0].GoName = n
+			return fmt.Sprintf("field %s of %s %s with go.name %s", d.Fields[0].Name, d.Kind, d.Name, n), true
 		}},
 		{"accessor-name-field", "B", func() (string, bool) {
 			d := in.pickDef(in.structs(2))
@@ -485,9 +518,11 @@ func InjectAt(r *rng.R, p *Program, idx int) (Injection, bool) {
 			}
 			return "", false
 		}},
-		{"D84-file-named-like-a-go-keyword", "K:D84", func() (string, bool) {
+		{"file-whose-name-is-no-go-package-name", "B", func() (string, bool) {
+			// findings D71 and D84 (repaired: such files are refused): keywords, main, a dot in the
+			// name, a digit at the start, the blank identifier
 			f := p.Files[r.Intn(len(p.Files))]
-			name := []string{"range", "type", "func", "select", "go"}[r.Intn(5)]
+			name := []string{"range", "type", "func", "select", "go", "main", "x.y", "1st", "_", "v1.2", "init"}[r.Intn(11)]
 			for _, h := range p.Files {
 				if h.Base() == name {
 					return "", false
